@@ -407,3 +407,21 @@ func DumpFull(e formula.Node) string {
 	})
 	return b.String()
 }
+
+// DumpRanges renders shape, values and source ranges (no ids / parent links):
+// what two parses of the same text must agree on.
+func DumpRanges(e formula.Node) string {
+	var b strings.Builder
+	Walk(e, func(n formula.Node, parent formula.Node, c Child) {
+		if isNilNode(n) {
+			fmt.Fprintf(&b, "%s=<nil>;", c.Slot)
+			return
+		}
+		fmt.Fprintf(&b, "%s=%T[%d,%d);", c.Slot, n, n.Pos(), n.End())
+		_, lists := Children(n)
+		for _, l := range lists {
+			fmt.Fprintf(&b, "%s:list nil=%v[%d,%d);", l.Slot, l.Nil, l.Pos, l.End)
+		}
+	})
+	return Dump(e) + "|" + b.String()
+}
